@@ -150,7 +150,7 @@ def type_rule(Kop, n, at):
     if Kop in (IMPLIES, IFF):
         return z3.And(k == 2, allt(BoolT)), BoolT
     if Kop in (FORALL, EXISTS):
-        return z3.And(k == 1, allt(BoolT)), BoolT
+        return z3.And(k == 1, allt(BoolT), qv_ok(n), nqv(n) >= 1), BoolT
     if Kop == BOOL_CONSTANT:
         return z3.BoolVal(k == 0), BoolT
     if Kop == INT_CONSTANT:
@@ -403,6 +403,22 @@ def sem(Kop, n, av, at):
 
 
 # --------------------------------------------------------------------------
+def payload_wf(Kop, n, at):
+    """What the constructors (not the type checker) guarantee about the payload
+    of a node they pass to create_node (proved with the constructors)."""
+    if Kop == BV_CONSTANT:
+        return z3.And(pl_w(n) >= 1, pl_int(n) >= 0, pl_int(n) < pow2(pl_w(n)))
+    if Kop == BV_EXTRACT:
+        return z3.And(pl_i1(n) >= 0, pl_i1(n) <= pl_i2(n), pl_w(n) == pl_i2(n) - pl_i1(n) + 1)
+    if Kop in (BV_ZEXT, BV_SEXT) and at:
+        return z3.Implies(Ty.is_BVT(at[0]), pl_w(n) == Ty.bvw(at[0]) + pl_i1(n))
+    if Kop in (SYMBOL, ARRAY_VALUE):
+        return valid_type(pl_ty(n))
+    if Kop in (FORALL, EXISTS):
+        return nqv(n) >= 1
+    return z3.BoolVal(True)
+
+
 def unfold(t, Kop, k):
     """Facts for node term t with op(t)==Kop and nargs(t)==k (k concrete)."""
     f = [nargs(t) == k]
